@@ -1,6 +1,7 @@
 import Svgbob.Proofs.RectSound
 import Svgbob.Proofs.TableLocal
 import Svgbob.Proofs.RectStrokes
+import Svgbob.Proofs.ScopeStrokes
 import Mathlib.Tactic.SplitIfs
 import Mathlib.Tactic.Tauto
 /-!
@@ -194,6 +195,171 @@ theorem rect_outline_is_its_lines (frags : List Frag) (r : Frag) (h : endorseRec
     (hok : ∀ f ∈ frags, f.StrokeOk) (P : RPt) :
     r.outline P ↔ ∃ f ∈ frags, f.strokes P :=
   endorseRect_strokes frags r h hok P
+
+/-! ### a whole scope over the alphabet -/
+
+/-- a span over the alphabet: every cell holds `-`, `|`, `+`, or a character without any drawing
+meaning (a label character) -/
+def Alpha (len : List Char → Nat) (s : Span) : Prop :=
+  ∀ cc ∈ s, cc.2 = '-' ∨ cc.2 = '|' ∨ cc.2 = '+' ∨ entryOf len cc.2 = none
+
+theorem entryOf_ascii (len : List Char → Nat) (ch : Char) (e : Entry) (h : asciiEntry ch = some e) :
+    entryOf len ch = some e := by simp [entryOf, h]
+
+theorem ascii_getD (ch : Char) (h : (asciiEntry ch).isSome = true) :
+    asciiEntry ch = some ((entryOf L ch).getD Entry.empty) := by
+  cases ha : asciiEntry ch with
+  | none => rw [ha] at h; cases h
+  | some e => simp [entryOf, ha]
+
+theorem entries_are_ascii :
+    asciiEntry '-' = some eDash ∧ asciiEntry '|' = some eBar ∧ asciiEntry '+' = some ePlus :=
+  ⟨ascii_getD '-' (by decide +kernel), ascii_getD '|' (by decide +kernel), ascii_getD '+' (by decide +kernel)⟩
+
+theorem no_glyph_for_the_three (len : List Char → Nat) :
+    unicodeFrags len '-' = none ∧ unicodeFrags len '|' = none ∧ unicodeFrags len '+' = none := by
+  have h : Gen.unicodeTable.reverse.find? (·.1 == '-') = none ∧
+      Gen.unicodeTable.reverse.find? (·.1 == '|') = none ∧
+      Gen.unicodeTable.reverse.find? (·.1 == '+') = none := by
+    refine ⟨?_, ?_, ?_⟩ <;> decide +kernel
+  simp [unicodeFrags, h.1, h.2.1, h.2.2]
+
+/-- in a span over the alphabet every neighbour looks like empty, `-`, `|` or `+` -/
+theorem alpha_neighbours (len : List Char → Nat) (s : Span) (ha : Alpha len s) (c : Cell) (d : Dir) :
+    neighbours len s c d ∈ nbEntries := by
+  unfold neighbours
+  split
+  · rename_i ch hch
+    have hmem := spanLookup_some_mem s _ ch hch
+    rcases ha _ hmem with h | h | h | h
+    · simp only at h; subst h
+      rw [entryOf_ascii len _ _ entries_are_ascii.1]; simp [nbEntries]
+    · simp only at h; subst h
+      rw [entryOf_ascii len _ _ entries_are_ascii.2.1]; simp [nbEntries]
+    · simp only at h; subst h
+      rw [entryOf_ascii len _ _ entries_are_ascii.2.2]; simp [nbEntries]
+    · simp only at h; rw [h]; simp [nbEntries]
+  · simp [nbEntries]
+
+/-- the specified strokes of a cell of the span (neighbours by what they look like) -/
+def specOf (len : List Char → Nat) (s : Span) (cc : Cell × Char) : List (Pt × Pt) :=
+  specStrokes cc.2 (neighbours len s cc.1 .top).ch (neighbours len s cc.1 .bottom).ch
+    (neighbours len s cc.1 .left).ch (neighbours len s cc.1 .right).ch
+
+/-- the fragments of a cell of the span: proper grid lines (or a text), stroking exactly the
+specified strokes of that cell -/
+theorem alpha_cell (len : List Char → Nat) (s : Span) (ha : Alpha len s) (cc : Cell × Char)
+    (hcc : cc ∈ s) :
+    (∀ f ∈ cellFragments len s cc.1 cc.2, (f.absPos cc.1).StrokeOk) ∧
+    ∀ P : RPt, (∃ f ∈ cellFragments len s cc.1 cc.2, (f.absPos cc.1).strokes P) ↔
+      ∃ se ∈ specOf len s cc, OnSeg (cc.1.origin.add se.1) (cc.1.origin.add se.2) P := by
+  obtain ⟨c, ch⟩ := cc
+  have hnb := alpha_neighbours len s ha c
+  -- the drawing characters
+  have drawing : ∀ en, en ∈ [eDash, eBar, ePlus] → entryOf len ch = some en → ch = en.ch →
+      unicodeFrags len ch = none →
+      (∀ f ∈ cellFragments len s c ch, (f.absPos c).StrokeOk) ∧
+      ∀ P : RPt, (∃ f ∈ cellFragments len s c ch, (f.absPos c).strokes P) ↔
+        ∃ se ∈ specOf len s (c, ch), OnSeg (c.origin.add se.1) (c.origin.add se.2) P := by
+    intro en hen he hch hu
+    have hok := strokes_in_every_neighbourhood en hen (neighbours len s c) hnb
+    have hprop := alphabet_fragments_are_proper_lines en hen (neighbours len s c) hnb c
+    unfold cellOk at hok
+    split at hok
+    · rename_i segs hsegs
+      simp only [sameSet, Bool.and_eq_true, List.all_eq_true, List.contains_iff_mem] at hok
+      have hfr := segsOf_some _ _ hsegs
+      -- every segment of `segs` comes from a fragment
+      have hback : ∀ se ∈ segs, Frag.line se.1 se.2 false ∈ en.fragments (neighbours len s c) := by
+        have : ∀ (fs : List Frag) (sg : List (Pt × Pt)), segsOf fs = some sg →
+            ∀ se ∈ sg, Frag.line se.1 se.2 false ∈ fs := by
+          intro fs
+          induction fs with
+          | nil => intro sg h; simp [segsOf] at h; subst h; simp
+          | cons f fs ih =>
+            intro sg h
+            cases f with
+            | line a b br =>
+              cases br with
+              | true => simp [segsOf] at h
+              | false =>
+                simp only [segsOf, Option.map_eq_some_iff] at h
+                obtain ⟨rest, hrest, rfl⟩ := h
+                intro se hse
+                rcases List.mem_cons.mp hse with rfl | hse
+                · simp
+                · exact List.mem_cons_of_mem _ (ih rest hrest se hse)
+            | _ => simp [segsOf] at h
+        exact this _ _ hsegs
+      have hcf : ∀ f, f ∈ cellFragments len s c ch ↔
+          (f ∈ en.fragments (neighbours len s c) ∨
+            ((en.fragments (neighbours len s c)).isEmpty = true ∧ f = .cellText ⟨0, 0⟩ [ch])) := by
+        intro f
+        unfold cellFragments
+        simp only [he, hu]
+        by_cases hemp : (en.fragments (neighbours len s c)).isEmpty = true
+        · simp only [hemp, Bool.not_true, Bool.false_eq_true, if_false, List.mem_singleton]
+          have : en.fragments (neighbours len s c) = [] := by simpa using hemp
+          simp [this]
+        · simp only [hemp, Bool.not_false, if_true, sortBy_mem]
+          simp
+      constructor
+      · intro f hf
+        rcases (hcf f).mp hf with h | ⟨_, rfl⟩
+        · exact hprop f h
+        · trivial
+      · intro P
+        have hspec : specOf len s (c, ch) =
+            specStrokes en.ch (neighbours len s c .top).ch (neighbours len s c .bottom).ch
+              (neighbours len s c .left).ch (neighbours len s c .right).ch := by
+          simp [specOf, hch]
+        rw [hspec]
+        constructor
+        · rintro ⟨f, hf, hs⟩
+          rcases (hcf f).mp hf with h | ⟨_, rfl⟩
+          · obtain ⟨a, b, rfl, hab⟩ := hfr f h
+            exact ⟨(a, b), hok.1 _ hab, by simpa [Frag.absPos, Frag.strokes] using hs⟩
+          · simp [Frag.absPos, Frag.strokes] at hs
+        · rintro ⟨se, hse, hs⟩
+          have := hback se (hok.2 se hse)
+          exact ⟨_, (hcf _).mpr (Or.inl this), by simpa [Frag.absPos, Frag.strokes] using hs⟩
+    · simp at hok
+  have hu := no_glyph_for_the_three len
+  rcases ha _ hcc with h | h | h | h
+  · simp only at h; subst h
+    exact drawing eDash (by simp) (entryOf_ascii len _ _ entries_are_ascii.1) (by decide +kernel) hu.1
+  · simp only at h; subst h
+    exact drawing eBar (by simp) (entryOf_ascii len _ _ entries_are_ascii.2.1) (by decide +kernel) hu.2.1
+  · simp only at h; subst h
+    exact drawing ePlus (by simp) (entryOf_ascii len _ _ entries_are_ascii.2.2) (by decide +kernel) hu.2.2
+  · -- a label character: one text, no stroke; and the specification names no stroke for it
+    simp only at h
+    have hne : ch ≠ '-' ∧ ch ≠ '|' ∧ ch ≠ '+' := by
+      refine ⟨?_, ?_, ?_⟩ <;> intro hc <;> subst hc
+      · rw [entryOf_ascii len _ _ entries_are_ascii.1] at h; cases h
+      · rw [entryOf_ascii len _ _ entries_are_ascii.2.1] at h; cases h
+      · rw [entryOf_ascii len _ _ entries_are_ascii.2.2] at h; cases h
+    have hcf : cellFragments len s c ch = [.cellText ⟨0, 0⟩ [ch]] := by simp [cellFragments, h]
+    constructor
+    · intro f hf
+      rw [hcf] at hf
+      simp only [List.mem_singleton] at hf; subst hf; trivial
+    · intro P
+      simp only [hcf, specOf, specStrokes]
+      simp [hne.1, hne.2.1, hne.2.2, Frag.absPos, Frag.strokes]
+
+/-- **The contact groups of a scope over the alphabet stroke exactly the specified strokes of its
+cells** — every rational point, every span, after the fragment merge and the contact grouping. -/
+theorem scope_strokes_exactly_the_specified (len : List Char → Nat) (s : Span) (ha : Alpha len s)
+    (P : RPt) (hq : 0 < P.q) :
+    (∃ g ∈ contactsOf len s, ∃ f ∈ g, f.frag.strokes P) ↔
+      ∃ cc ∈ s, ∃ se ∈ specOf len s cc, OnSeg (cc.1.origin.add se.1) (cc.1.origin.add se.2) P := by
+  rw [contactsOf_strokes len s (fun cc hcc => (alpha_cell len s ha cc hcc).1) P hq]
+  constructor
+  · rintro ⟨cc, hcc, h⟩
+    exact ⟨cc, hcc, ((alpha_cell len s ha cc hcc).2 P).mp h⟩
+  · rintro ⟨cc, hcc, h⟩
+    exact ⟨cc, hcc, ((alpha_cell len s ha cc hcc).2 P).mpr h⟩
 
 /-- the predicate on rational points is the code's `onSegment` at integer points -/
 theorem stroke_predicate_is_the_codes (s e p : Pt) :
